@@ -80,7 +80,7 @@ Proof.
   cbv zeta.
   pose proof (ploop_key (update_from f) m
      (match m_get ANY m with Some v => update_from f ps v rest | None => ps end) [] (s :: rest)) as K.
-  cbn [app] in K. rewrite <- K. cbn [update_from join_dot isnil].
+  cbn [app] in K. rewrite <- K. cbn [Model.update_from join_dot isnil].
   destruct (prefix_loop (update_from f) m _ [] true (s :: rest)) as [ps2 key]. reflexivity.
 Qed.
 
@@ -114,7 +114,7 @@ Proof.
   intros W. rewrite upd_cons. cbv zeta.
   change (m_get ANY [(ANY, Mapping s)]) with (Some (Mapping s)).
   rewrite ploop_none.
-  - unfold direct. apply pfold_none. intros e [<-|[]]. cbn [fst]. rewrite prefix_dot_any. reflexivity.
+  - unfold Model.direct. apply pfold_none. intros e [<-|[]]. cbn [fst]. rewrite prefix_dot_any. reflexivity.
   - intros t1 s' t2 E. cbn [app]. apply m_get_none. cbn [map fst]. intros [X|[]].
     rewrite E in W. apply (join_not_any (t1 ++ [s'])); [exact (proj1 (wf_path_mid _ _ _ W))|destruct t1; discriminate|].
     symmetry. exact X.
